@@ -24,9 +24,12 @@ import re
 import sys
 
 sys.path.insert(0, os.path.dirname(os.path.abspath(__file__)))
+import copy
 from rs2v.driver import translate, TranslateError   # noqa: E402
-from rs2v.emit import EmitError                      # noqa: E402
-from rs2v.rparser import parse_file, find_fn, N      # noqa: E402
+from rs2v import driver as drv                       # noqa: E402
+from rs2v.emit import EmitError, Emitter             # noqa: E402
+from rs2v.lexer import LexError                      # noqa: E402
+from rs2v.rparser import parse_file, find_fn, find_items, type_name, parse_macro_args, ParseError, N      # noqa: E402
 
 U8, USZ, BOOL, UNITT = ("int", "u8"), ("int", "usize"), ("bool",), ("coq", "unit")
 STR, STRB = ("struct", "Str"), ("struct", "StrB")
@@ -318,6 +321,130 @@ def check_literals(src, names, rel):
         walk(find_fn(items, n, None, None))
 
 
+# ---------------------------------------------------------------------------
+# impl std::fmt::Display for anstyle_git::Error
+#
+# `fmt: &mut Formatter` is the text written so far (code points, like every string of the git area; threaded like
+# every `&mut`), `std::fmt::Result` = `result unit unit`; a formatter over an infallible sink (what `to_string()` /
+# `format!("{}", e)` use): `write!` appends its pieces in order and answers Ok(()).
+
+GIT_ERROR_VARIANTS = [("ExtraColor", "GEExtraColor"), ("UnknownWord", "GEUnknownWord")]
+GIT_ERROR_FIELDS = ["style", "word"]
+FMT_RES = RES(UNITT, UNITT)
+
+
+def format_pieces(fmt):
+    """a format string -> [("lit", text) | ("arg", name)]: literal pieces (`{{` / `}}` unescaped) and INLINE captures
+    `{name}`; positional / formatted placeholders (`{}`, `{0}`, `{x:?}`, `{x:>5}`) are not in the vocabulary"""
+    out, lit, i = [], "", 0
+    while i < len(fmt):
+        c = fmt[i]
+        if c in "{}" and fmt[i:i + 2] == c + c:
+            lit += c
+            i += 2
+        elif c == "{":
+            j = fmt.find("}", i)
+            name = fmt[i + 1:j] if j >= 0 else ""
+            if not re.fullmatch(r"[A-Za-z_][A-Za-z0-9_]*", name):
+                raise EmitError("write!: placeholder %r: only inline captures `{name}` are in the vocabulary" % fmt[i:j + 1 if j >= 0 else len(fmt)])
+            if lit:
+                out.append(("lit", lit))
+            out.append(("arg", name))
+            lit, i = "", j + 1
+        elif c == "}":
+            raise EmitError("write!: unmatched `}` in the format string")
+        else:
+            lit += c
+            i += 1
+    if lit:
+        out.append(("lit", lit))
+    return out
+
+
+def mac_write_git(em, e, env, k):
+    """`write!(fmt, "literal {style} .. {word}")`: one append (git_fmt_write) per piece of the format string"""
+    args = parse_macro_args(e.toks)
+    if len(args) != 2 or args[0].kind != "path" or len(args[0].segs) != 1 or args[1].kind != "str":
+        raise EmitError("write!: expected write!(<formatter variable>, \"format string with inline captures\")")
+    dest = args[0]
+    v = env.get(dest.segs[0])
+    if v is None or v.ty != STR:
+        raise EmitError("write!: %s is not the formatter" % dest.segs[0])
+    if any(b >= 128 for b in args[1].val):
+        raise EmitError("write!: non-ASCII format string (bytes = code points only for ASCII)")
+    term = v.coq
+    for kind, x in format_pieces(bytes(args[1].val).decode("ascii")):
+        if kind == "lit":
+            piece = "[%s]" % "; ".join(str(ord(c)) for c in x)
+        else:
+            a = env.get(x)
+            if a is None or a.ty != STR:
+                raise EmitError("write!: `{%s}`: not a String / &str variable in scope (Display of a str = the str itself)" % x)
+            piece = a.coq
+        term = "(git_fmt_write %s %s)" % (term, piece)
+    return em.write_place(dest, term, env, lambda env1: k("(Ok tt)", FMT_RES, env1))
+
+
+def struct_patterns_to_tuple(x, variants, fields):
+    """`Self::ExtraColor { style, word }` -> `Self::ExtraColor(style, word)` (fields matched BY NAME and put in the
+    argument order of the hand model's constructors, every field named, no `..`): the emitter knows data-carrying
+    variants as tuple patterns (vocabulary `payload`)"""
+    if isinstance(x, N):
+        if x.kind == "pstruct":
+            if x.segs[-1] not in variants or x.rest:
+                raise TranslateError("pattern %s { .. }: not a fully spelt-out variant of Error" % "::".join(x.segs))
+            got = dict(x.fields)
+            if sorted(got) != sorted(fields) or len(x.fields) != len(fields):
+                raise TranslateError("pattern %s: fields %r, the vocabulary models %r" % ("::".join(x.segs), [f for f, _ in x.fields], fields))
+            return N("ptstruct", segs=x.segs, elems=[struct_patterns_to_tuple(got[f], variants, fields) for f in fields])
+        for key, val in list(x.__dict__.items()):
+            setattr(x, key, struct_patterns_to_tuple(val, variants, fields))
+        return x
+    if isinstance(x, list):
+        return [struct_patterns_to_tuple(y, variants, fields) for y in x]
+    if isinstance(x, tuple):
+        return tuple(struct_patterns_to_tuple(y, variants, fields) for y in x)
+    return x
+
+
+def check_git_error(items):
+    """`enum Error { ExtraColor { style: String, word: String }, UnknownWord { style: String, word: String } }`"""
+    ens = find_items(items, "enum", "Error")
+    if len(ens) != 1:
+        raise TranslateError("enum Error: %d definitions" % len(ens))
+    got = []
+    for vname, payload, disc, _attrs in ens[0].variants:
+        if payload != "struct" and not isinstance(payload, list):
+            raise TranslateError("enum Error::%s: payload %r" % (vname, payload))
+        got.append(vname)
+    if got != [v for v, _ in GIT_ERROR_VARIANTS]:
+        raise TranslateError("enum Error: variants %r, the vocabulary models %r" % (got, [v for v, _ in GIT_ERROR_VARIANTS]))
+
+
+def git_error_fmt(gm, src):
+    """`impl std::fmt::Display for Error`::fmt -> g_git_error_fmt"""
+    try:
+        items = parse_file(src)
+    except (ParseError, LexError) as e:
+        raise TranslateError("parse error: %s" % e)
+    check_git_error(items)
+    fn = find_fn(items, "fmt", "Error", "Display")
+    v = vocab(gm, "git")
+    v["enums"] = dict(v["enums"], Error={
+        "coq": "git_error", "var": "err", "variants": dict(GIT_ERROR_VARIANTS),
+        "payload": {n: [STR] * len(GIT_ERROR_FIELDS) for n, _ in GIT_ERROR_VARIANTS}})
+    v["type_alias"] = dict(v["type_alias"], Formatter=STR, Result=FMT_RES)
+    v["macros"] = {"write": mac_write_git}
+    v["reserved"] = v["reserved"] + ["err", "fmt"]
+    fn2 = struct_patterns_to_tuple(copy.deepcopy(fn), dict(GIT_ERROR_VARIANTS), GIT_ERROR_FIELDS)
+    try:
+        text, _shape = Emitter(v, items).emit_fn(fn2, "Error", "g_git_error_fmt")
+    except EmitError as e:
+        raise TranslateError("<Error as Display>::fmt: %s" % e)
+    drv.REGISTRY.append(("translated", drv._sha(src), fn, "g_git_error_fmt"))
+    return "(* <Error as Display>::fmt *)\n" + text + "\n"
+
+
 HEADER = "(* GENERATED by tools/gen_fn_text.py (tools/rs2v) from %s\n   (effect bits / AnsiColor order from crates/anstyle/src/{effect.rs,color.rs}) -- do not edit *)"
 REQ = """From Coq Require Import NArith List Bool.
 From AV Require Import Spec.StyleRec Model.Base Model.Imp Model.Text%s.
@@ -351,7 +478,7 @@ def register(generators, gm):
         return translate(git, vocab(gm, "git"), [
             ("parse_color", None, "g_git_parse_color", {}),
             ("parse", None, "g_git_parse", {}),
-        ], HEADER % GIT, REQ % " Model.Git", {}) + "\n"
+        ], HEADER % GIT, REQ % " Model.Git", {}) + "\n" + git_error_fmt(gm, git) + "\n"
 
     def gen_text():
         return ("(* GENERATED by tools/gen_fn_text.py -- do not edit *)\n"
